@@ -21,6 +21,12 @@ func init() {
 }
 
 func runC11(c *Ctx) {
+	defer c04FlushOrder(c, "C11.25")
+	defer func() {
+		c.Rule("C11.26", "the tree read back from disk is the tree that was written: the page codecs are symmetric item by item — both sibling links, the rightmost child, every cell (C12.1)")
+		checkCodecPair(c, "C11.26", "storage.(*btreeNode).encodeLeaf", "storage.(*btreeNode).decodeLeaf")
+		checkCodecPair(c, "C11.26", "storage.(*btreeNode).encodeInternal", "storage.(*btreeNode).decodeInternal")
+	}()
 	c11SiblingLinks(c, "C11.1")
 	c11Fullness(c, "C11.2")
 	c11SplitArithmetic(c, "C11.3")
